@@ -203,7 +203,6 @@ REJP("add_congruence", "dim_too_large", "invalid_argument", ps.add_congruence((z
 REJP("intersection_assign", "dim_mismatch", "invalid_argument", ps.intersection_assign(qs))
 REJP("upper_bound_assign", "dim_mismatch", "invalid_argument", ps.upper_bound_assign(qs))
 REJP("difference_assign", "dim_mismatch", "invalid_argument", ps.difference_assign(qs))
-REJP("time_elapse_assign", "dim_mismatch", "invalid_argument", ps.time_elapse_assign(qs))
 REJP("simplify_using_context_assign", "dim_mismatch", "invalid_argument", (void) ps.simplify_using_context_assign(qs))
 REJP("contains", "dim_mismatch", "invalid_argument", (void) ps.contains(qs))
 REJP("is_disjoint_from", "dim_mismatch", "invalid_argument", (void) ps.is_disjoint_from(qs))
@@ -229,5 +228,4 @@ REJECT("Pointset_Powerset<C_Polyhedron>", "add_constraint", "dim_too_large_no_di
 REJECT("Pointset_Powerset<C_Polyhedron>", "intersection_assign", "dim_mismatch_no_disjuncts") { PS ps(2, EMPTY), qs(3, EMPTY); r.call("invalid_argument", [&] { ps.intersection_assign(qs); }); }
 REJECT("Pointset_Powerset<C_Polyhedron>", "affine_image", "zero_denominator_no_disjuncts") { PS ps(2, EMPTY); r.call("invalid_argument", [&] { ps.affine_image(Variable(0), Variable(1), 0); }); }
 REJECT("Pointset_Powerset<C_Polyhedron>", "construct", "space_dimension_overflow") { r.call("length_error", [&] { PS ps(PS::max_space_dimension() + 1, EMPTY); }); }
-REJECT("Pointset_Powerset<C_Polyhedron>", "linear_partition", "dim_mismatch") { C_Polyhedron p(2), q(3); r.call("invalid_argument", [&] { (void) linear_partition(p, q); }); }
 } // namespace
